@@ -1,5 +1,8 @@
 (* C12: theorems about the label bookkeeping of conditional sampling
-   (model: Model/CondSample.v). *)
+   (model: Model/CondSample.v, the source after the fixes fa9ce3f / baa4f86).
+   HISTORY: for the earlier source this file held the refutations cond_scores_by_label_refuted,
+   cond_dict_order_matters (F19) and cond_series_raises (F11); they are now the full theorems
+   cond_scores_by_label, cond_dict_order_irrelevant and cond_series_equivalent. *)
 From Coq Require Import List Arith Bool Lia Permutation.
 From Cop Require Import Model.CondSample.
 Import ListNotations.
@@ -127,6 +130,58 @@ Qed.
 Lemma isort_perm l : Permutation (isort l) l.
 Proof. induction l as [|x r IH]; simpl; auto. rewrite insert_perm. now constructor. Qed.
 
+(* ---------- more generic helpers ---------- *)
+Lemma lookup_perm {A} c (l l' : list (label * A)) :
+  NoDup (map fst l) -> Permutation l l' -> lookup c l = lookup c l'.
+Proof.
+  intros ND P.
+  assert (ND' : NoDup (map fst l')) by (eapply Permutation_NoDup; [apply Permutation_map; exact P|exact ND]).
+  destruct (lookup c l) as [v|] eqn:E.
+  - apply lookup_In in E. symmetry. apply lookup_NoDup; auto. eapply Permutation_in; eauto.
+  - symmetry. apply lookup_None. apply lookup_None in E. intros H. apply E.
+    eapply Permutation_in; [apply Permutation_map; symmetry; exact P|exact H].
+Qed.
+
+Lemma lookup_filter_key {A} (f : label -> bool) c (l : list (label * A)) :
+  f c = true -> lookup c (filter (fun p => f (fst p)) l) = lookup c l.
+Proof.
+  intros Hc. induction l as [|[k v] r IH]; simpl; auto.
+  destruct (f k) eqn:Ek; simpl.
+  - destruct (Nat.eqb c k); auto.
+  - destruct (Nat.eqb c k) eqn:E; auto. apply Nat.eqb_eq in E. congruence.
+Qed.
+
+Lemma flat_map_ext_in {A B} (f g : A -> list B) l :
+  (forall a, In a l -> f a = g a) -> flat_map f l = flat_map g l.
+Proof.
+  induction l as [|a l IH]; simpl; auto. intros H.
+  rewrite (H a (or_introl eq_refl)), IH; auto.
+Qed.
+
+Lemma filter_ext_in' {A} (f g : A -> bool) l :
+  (forall a, In a l -> f a = g a) -> filter f l = filter g l.
+Proof.
+  induction l as [|a l IH]; simpl; auto. intros H.
+  rewrite (H a (or_introl eq_refl)), IH; auto.
+Qed.
+
+Lemma mapM_ext_in {A B} (f g : A -> result B) l :
+  (forall a, In a l -> f a = g a) -> mapM f l = mapM g l.
+Proof.
+  induction l as [|a l IH]; simpl; auto. intros H.
+  rewrite (H a (or_introl eq_refl)), IH; auto.
+Qed.
+
+Lemma mapM_err_inv {A B} (f : A -> result B) l e :
+  mapM f l = Err e -> exists a, In a l /\ f a = Err e.
+Proof.
+  induction l as [|a l IH]; simpl; [discriminate|].
+  destruct (f a) eqn:E; simpl.
+  - destruct (mapM f l); simpl; [discriminate|]. intros [= ->].
+    destruct (IH eq_refl) as (x & Hx & Hf). eauto.
+  - intros [= ->]. eauto.
+Qed.
+
 (* ------------------------------------------------------------------ *)
 Section Proofs.
 Variable V : Type.
@@ -155,6 +210,7 @@ Notation smp := (sample V sort score ppf Phi cond_params uncond_params mvn colum
 Notation cols1_of := (columns1 V sort columns).
 Notation ncond := (normal_conditions V score columns).
 Notation outcol := (output_column V ppf Phi).
+Notation knownc := (known V columns).
 
 (* the conditional draw: num_rows rows, labelled by columns1 *)
 Definition draw_of (n : nat) (nconds : list (label * V)) : list (list V) :=
@@ -194,34 +250,200 @@ Proof.
   apply nth_error_Some. congruence.
 Qed.
 
-(* ---------------- normal_conditions ---------------------------------- *)
+(* ---------------- known labels and normal_conditions ------------------- *)
 
-Lemma normal_conditions_keys conds nc : ncond conds = Ok nc -> map fst nc = map fst conds.
+Definition keys (conds : list (label * V)) : list label := map fst conds.
+
+Lemma has_key_In c conds : has_key V c conds = true <-> In c (keys conds).
 Proof.
-  unfold normal_conditions, bind. destruct (transform_conditions V score columns conds) as [U|]; [|discriminate].
-  unfold relabel. destruct (Nat.eqb (length U) (length conds)) eqn:E; [|discriminate].
-  intros [= <-]. apply Nat.eqb_eq in E. apply combine_fst. now rewrite map_length.
+  unfold has_key. destruct (lookup c conds) eqn:E.
+  - split; auto. intros _. apply lookup_In in E. apply (in_map fst) in E. exact E.
+  - split; [discriminate|]. intros H. apply lookup_None in E. contradiction.
+Qed.
+
+Lemma known_spec conds c : In c (knownc conds) <-> In c columns /\ In c (keys conds).
+Proof. unfold known. rewrite filter_In, has_key_In. reflexivity. Qed.
+
+Lemma known_nodup conds : NoDup (knownc conds).
+Proof. apply NoDup_filter, columns_nodup. Qed.
+
+(* the scores and their labels are produced by the same traversal of the training columns *)
+Lemma transform_known_gen conds cs :
+  combine (filter (fun c => has_key V c conds) cs)
+          (flat_map (fun c => match lookup c conds with Some v => [score c v] | None => [] end) cs)
+  = flat_map (fun c => match lookup c conds with Some v => [(c, score c v)] | None => [] end) cs
+  /\ length (flat_map (fun c => match lookup c conds with Some v => [score c v] | None => [] end) cs)
+     = length (filter (fun c => has_key V c conds) cs).
+Proof.
+  induction cs as [|c cs [IH1 IH2]]; [split; reflexivity|].
+  cbn [filter flat_map].
+  change (has_key V c conds) with (match lookup c conds with Some _ => true | None => false end).
+  destruct (lookup c conds); cbn [app combine length]; [rewrite IH1, IH2|]; auto.
+Qed.
+
+(* What the code computes: every known label, in training order, with ITS OWN score *)
+Theorem normal_conditions_spec conds nc :
+  ncond conds = Ok nc ->
+  nc = flat_map (fun c => match lookup c conds with Some v => [(c, score c v)] | None => [] end) columns.
+Proof.
+  unfold normal_conditions, bind, transform_conditions.
+  destruct (transform_known_gen conds columns) as [H1 H2].
+  destruct (flat_map _ columns) eqn:E; [discriminate|].
+  unfold relabel, known. rewrite H2, Nat.eqb_refl. intros [= <-]. exact H1.
+Qed.
+
+Lemma normal_conditions_keys conds nc : ncond conds = Ok nc -> map fst nc = knownc conds.
+Proof.
+  unfold normal_conditions, bind, transform_conditions.
+  destruct (transform_known_gen conds columns) as [H1 H2].
+  destruct (flat_map _ columns) eqn:E; [discriminate|].
+  unfold relabel. unfold known at 1. rewrite H2, Nat.eqb_refl. intros [= <-].
+  apply combine_fst. unfold known. now rewrite H2.
+Qed.
+
+(* the relabelling can never fail: as many scores as known labels *)
+Theorem normal_conditions_no_length_mismatch conds a b :
+  ncond conds <> Err (ValueError_length_mismatch a b).
+Proof.
+  unfold normal_conditions, bind, transform_conditions.
+  destruct (transform_known_gen conds columns) as [_ H2].
+  destruct (flat_map _ columns) eqn:E; [discriminate|].
+  unfold relabel, known. rewrite H2, Nat.eqb_refl. discriminate.
+Qed.
+
+Lemma lookup_flat_map_scores conds cs c :
+  NoDup cs ->
+  lookup c (flat_map (fun c => match lookup c conds with Some v => [(c, score c v)] | None => [] end) cs)
+  = if mem c cs then match lookup c conds with Some v => Some (score c v) | None => None end else None.
+Proof.
+  induction cs as [|k cs IH]; simpl; [reflexivity|]. intros ND. inversion ND; subst.
+  destruct (Nat.eqb c k) eqn:E.
+  - apply Nat.eqb_eq in E. subst k. simpl.
+    destruct (lookup c conds); simpl.
+    + now rewrite Nat.eqb_refl.
+    + rewrite IH by assumption. apply mem_false in H1. now rewrite H1.
+  - simpl. destruct (lookup k conds); simpl; [rewrite E|]; now apply IH.
+Qed.
+
+(* FULL (was refuted before fa9ce3f): the score attached to label c is score_c(value_c), for every
+   order of the keys of the conditions *)
+Theorem cond_scores_by_label conds nc c :
+  ncond conds = Ok nc ->
+  lookup c nc = if mem c columns
+                then match lookup c conds with Some v => Some (score c v) | None => None end
+                else None.
+Proof.
+  intros H. rewrite (normal_conditions_spec _ _ H). now apply lookup_flat_map_scores.
+Qed.
+
+Corollary cond_scores_by_label_items conds nc c v :
+  ncond conds = Ok nc -> In c columns -> lookup c conds = Some v -> lookup c nc = Some (score c v).
+Proof.
+  intros H Hc Hl. rewrite (cond_scores_by_label _ _ c H), Hl.
+  apply mem_In in Hc. now rewrite Hc.
+Qed.
+
+(* with the keys in training order the result is literally the conditions with scored values *)
+Definition conditioned_in_training_order (conds : list (label * V)) : list label := knownc conds.
+
+Lemma flat_map_items conds (l : list (label * V)) :
+  NoDup (keys conds) -> incl l conds ->
+  flat_map (fun c => match lookup c conds with Some v => [(c, score c v)] | None => [] end)
+           (map fst l)
+  = map (fun p => (fst p, score (fst p) (snd p))) l.
+Proof.
+  intros ND. induction l as [|[c v] l IH]; simpl; intros Hi; auto.
+  rewrite (lookup_NoDup c conds v ND) by (apply Hi; now left).
+  simpl. f_equal. apply IH. intros x Hx. apply Hi. now right.
+Qed.
+
+(* ---------------- the model reads the conditions only through lookups at training columns ---- *)
+
+Theorem sample_lookup_ext kind kind' n conds conds' :
+  (forall c, In c columns -> lookup c conds = lookup c conds') ->
+  smp kind n (Some conds) = smp kind' n (Some conds').
+Proof.
+  intros H.
+  assert (HU : transform_conditions V score columns conds = transform_conditions V score columns conds').
+  { unfold transform_conditions. erewrite flat_map_ext_in; [reflexivity|].
+    intros c Hc. now rewrite (H c Hc). }
+  assert (HK : knownc conds = knownc conds').
+  { unfold known. apply filter_ext_in'. intros c Hc. unfold has_key. now rewrite (H c Hc). }
+  assert (HN : ncond conds = ncond conds') by (unfold normal_conditions; now rewrite HU, HK).
+  unfold sample, normal_samples. rewrite HN.
+  destruct (ncond conds') as [nc|]; [|reflexivity]. unfold bind at 1 3. cbn [bind].
+  destruct (first_unknown columns (map fst nc)); [reflexivity|].
+  destruct (cond_params (cols1_of nc) nc) as [mu Sg].
+  assert (HO : forall fr, mapM (outcol kind n (Some conds) fr) columns
+                        = mapM (outcol kind' n (Some conds') fr) columns).
+  { intros fr. apply mapM_ext_in. intros c Hc. unfold output_column. now rewrite (H c Hc). }
+  destruct (cols1_of nc); [reflexivity|].
+  destruct (mk_frame V (mvn mu Sg n) (l :: l0)); [|reflexivity]. apply HO.
+Qed.
+
+(* FULL (was refuted before baa4f86): a Series is accepted and behaves exactly like the dict with
+   the same items *)
+Theorem cond_series_equivalent n conds : smp Series n (Some conds) = smp Dict n (Some conds).
+Proof. reflexivity. Qed.
+
+(* FULL (was refuted before fa9ce3f): the order in which the conditions are listed is irrelevant *)
+Theorem cond_dict_order_irrelevant kind n conds conds' :
+  NoDup (keys conds) -> Permutation conds conds' ->
+  smp kind n (Some conds) = smp kind n (Some conds').
+Proof. intros ND P. apply sample_lookup_ext. intros c _. now apply lookup_perm. Qed.
+
+(* a label that is not a training column is silently ignored ... *)
+Theorem cond_unknown_label_ignored kind n conds :
+  smp kind n (Some conds) = smp kind n (Some (filter (fun p => mem (fst p) columns) conds)).
+Proof.
+  apply sample_lookup_ext. intros c Hc. symmetry.
+  apply (lookup_filter_key (fun k => mem k columns)). now apply mem_In.
+Qed.
+
+(* ... unless no label is known (this includes the empty dict): ValueError *)
+Theorem cond_no_known_label_raises kind n conds :
+  (forall c, In c columns -> lookup c conds = None) ->
+  smp kind n (Some conds) = Err ValueError_no_arrays.
+Proof.
+  intros H. unfold sample, normal_samples, normal_conditions, transform_conditions.
+  assert (E : flat_map (fun c => match lookup c conds with Some v => [score c v] | None => [] end) columns = []).
+  { clear - H. induction columns as [|c cs IH]; simpl; auto.
+    rewrite (H c (or_introl eq_refl)). simpl. apply IH. intros; apply H; now right. }
+  rewrite E. reflexivity.
 Qed.
 
 (* ---------------- inversion of a successful conditional sample -------- *)
 
-Lemma sample_dict_inv n conds out :
-  smp Dict n (Some conds) = Ok out ->
-  exists nc, ncond conds = Ok nc /\ map fst nc = map fst conds /\
-             cols1_of conds <> [] /\
-             Forall2 (fun c p => outcol Dict n (Some conds)
-                                   (mkFrame V (cols1_of conds) (draw_of n nc)) c = Ok p)
+Lemma cols1_known conds nc : map fst nc = knownc conds ->
+  forall c, In c (cols1_of nc) <-> In c columns /\ lookup c conds = None.
+Proof.
+  intros Hk c. rewrite columns1_spec, Hk, known_spec. split.
+  - intros [Hc Hn]. split; auto. apply lookup_None. fold (keys conds). tauto.
+  - intros [Hc Hn]. split; auto. apply lookup_None in Hn. fold (keys conds) in Hn. tauto.
+Qed.
+
+Lemma first_unknown_known conds : first_unknown columns (knownc conds) = None.
+Proof.
+  unfold first_unknown. apply find_none_conv. intros x Hx.
+  apply known_spec in Hx. apply negb_false_iff, mem_In. tauto.
+Qed.
+
+Lemma sample_inv kind n conds out :
+  smp kind n (Some conds) = Ok out ->
+  exists nc, ncond conds = Ok nc /\ map fst nc = knownc conds /\
+             cols1_of nc <> [] /\
+             Forall2 (fun c p => outcol kind n (Some conds)
+                                   (mkFrame V (cols1_of nc) (draw_of n nc)) c = Ok p)
                      columns out.
 Proof.
   intros H. unfold sample, normal_samples in H. unfold bind at 1 2 in H.
   destruct (ncond conds) as [nc|] eqn:Enc; [|discriminate].
   pose proof (normal_conditions_keys _ _ Enc) as Hk.
   destruct (first_unknown columns (map fst nc)); [discriminate|].
-  assert (Hc : cols1_of nc = cols1_of conds) by (unfold columns1; now rewrite Hk).
   exists nc. split; [reflexivity|]. split; [exact Hk|].
-  unfold draw_of. rewrite Hc in *.
-  destruct (cond_params (cols1_of conds) nc) as [mu Sg].
-  destruct (cols1_of conds) as [|c0 r0] eqn:Ecols; [discriminate|].
+  unfold draw_of.
+  destruct (cond_params (cols1_of nc) nc) as [mu Sg].
+  destruct (cols1_of nc) as [|c0 r0] eqn:Ecols; [discriminate|].
   unfold mk_frame in H.
   destruct (forallb _ _); [|discriminate].
   apply mapM_Forall2 in H.
@@ -237,9 +459,7 @@ Proof.
                     | Err e => Err e end = Ok q -> fst q = c).
   { intros q. destruct (frame_col V fr c); [|discriminate]. now intros [= <-]. }
   destruct conditions as [conds|]; [|apply Hs].
-  destruct kind; [|discriminate].
-  destruct conds as [|c1 r1]; [apply Hs|].
-  destruct (lookup c (c1 :: r1)); [|apply Hs]. now intros [= <-].
+  destruct (lookup c conds); [|apply Hs]. now intros [= <-].
 Qed.
 
 Lemma Forall2_fst (f : label -> result (label * list V)) cs out :
@@ -268,23 +488,19 @@ Proof.
   apply sequence_Forall2 in E. symmetry. eapply Forall2_length'; eauto.
 Qed.
 
-Theorem cond_all_columns_in_order n conds out :
-  smp Dict n (Some conds) = Ok out ->
+Theorem cond_all_columns_in_order kind n conds out :
+  smp kind n (Some conds) = Ok out ->
   map fst out = columns /\ Forall (fun p => length (snd p) = n) out.
 Proof.
   intros H. split; [eapply cond_all_columns_in_order_header; eauto|].
-  destruct (sample_dict_inv _ _ _ H) as (nc & _ & _ & _ & HF).
+  destruct (sample_inv _ _ _ _ H) as (nc & _ & _ & _ & HF).
   clear H. induction HF as [|c p cs ps Hc _ IH]; constructor; auto.
   unfold output_column, bind in Hc.
-  assert (Hs : match frame_col V (mkFrame V (cols1_of conds) (draw_of n nc)) c with
-               | Ok a => Ok (c, map (fun x => ppf c (Phi x)) a)
-               | Err e => Err e end = Ok p -> length (snd p) = n).
-  { destruct (frame_col _ _ _) eqn:E; [|discriminate]. intros [= <-]. simpl.
+  destruct (lookup c conds).
+  - inversion Hc; subst. simpl. apply repeat_length.
+  - destruct (frame_col _ _ _) eqn:E; [|discriminate]. inversion Hc; subst. simpl.
     rewrite map_length. apply frame_col_length in E. simpl in E.
-    rewrite E. apply draw_of_shape. }
-  destruct conds as [|c1 r1]; [now apply Hs|].
-  destruct (lookup c (c1 :: r1)); [|now apply Hs].
-  inversion Hc; subst. simpl. apply repeat_length.
+    rewrite E. apply draw_of_shape.
 Qed.
 
 (* reading the result back by label *)
@@ -300,262 +516,153 @@ Proof.
   - apply Nat.eqb_neq in E. destruct Hin as [?|Hin]; [congruence|]. auto.
 Qed.
 
-(* every conditioned column holds the given value in all n rows *)
-Theorem cond_fixed_columns n conds out c v :
-  smp Dict n (Some conds) = Ok out ->
+(* every conditioned column holds the given value in all n rows (dict or Series) *)
+Theorem cond_fixed_columns kind n conds out c v :
+  smp kind n (Some conds) = Ok out ->
   In c columns -> lookup c conds = Some v ->
   lookup c out = Some (repeat v n).
 Proof.
   intros H Hin Hl.
-  destruct (sample_dict_inv _ _ _ H) as (nc & _ & _ & _ & HF).
+  destruct (sample_inv _ _ _ _ H) as (nc & _ & _ & _ & HF).
   destruct (out_lookup _ _ _ (fun c p => outcol_fst _ _ _ _ c p) HF c Hin) as (x & Hx & Hc).
-  rewrite Hx. unfold output_column in Hc.
-  destruct conds as [|c1 r1]; [discriminate|].
-  rewrite Hl in Hc. congruence.
+  rewrite Hx. unfold output_column in Hc. rewrite Hl in Hc. congruence.
 Qed.
 
 (* dict form: for every item (c, v) of the conditions *)
-Corollary cond_fixed_columns_items n conds out c v :
+Corollary cond_fixed_columns_items kind n conds out c v :
   NoDup (map fst conds) ->
-  smp Dict n (Some conds) = Ok out ->
+  smp kind n (Some conds) = Ok out ->
   In (c, v) conds -> In c columns ->
   lookup c out = Some (repeat v n).
 Proof. intros ND H Hi Hc. eapply cond_fixed_columns; eauto. now apply lookup_NoDup. Qed.
 
 (* a sampled column c is ppf_c (Phi (.)) of THE component of the draw labelled c *)
-Theorem cond_sampled_by_label n conds out c :
-  smp Dict n (Some conds) = Ok out ->
+Theorem cond_sampled_by_label kind n conds out c :
+  smp kind n (Some conds) = Ok out ->
   In c columns -> lookup c conds = None ->
   exists nc i col,
     ncond conds = Ok nc /\
-    nth_error (cols1_of conds) i = Some c /\
+    nth_error (cols1_of nc) i = Some c /\
     Forall2 (fun row x => nth_error row i = Some x) (draw_of n nc) col /\
     lookup c out = Some (map (fun x => ppf c (Phi x)) col).
 Proof.
   intros H Hin Hl.
-  destruct (sample_dict_inv _ _ _ H) as (nc & Hnc & _ & _ & HF).
+  destruct (sample_inv _ _ _ _ H) as (nc & Hnc & _ & _ & HF).
   destruct (out_lookup _ _ _ (fun c p => outcol_fst _ _ _ _ c p) HF c Hin) as (x & Hx & Hc).
-  unfold output_column, bind in Hc.
-  assert (Hs : match frame_col V (mkFrame V (cols1_of conds) (draw_of n nc)) c with
-               | Ok a => Ok (c, map (fun x => ppf c (Phi x)) a)
-               | Err e => Err e end = Ok (c, x) ->
-               exists i col, nth_error (cols1_of conds) i = Some c /\
-                 Forall2 (fun row x => nth_error row i = Some x) (draw_of n nc) col /\
-                 x = map (fun x => ppf c (Phi x)) col).
-  { unfold frame_col. simpl.
-    destruct (index_of c (cols1_of conds)) as [i|] eqn:Ei; [|discriminate].
-    destruct (sequence _) as [col|] eqn:Es; [|discriminate].
-    intros [= <-]. exists i, col. repeat split; auto.
-    - now apply index_of_nth.
-    - now apply sequence_Forall2 in Es. }
-  assert (Hc' : match frame_col V (mkFrame V (cols1_of conds) (draw_of n nc)) c with
-               | Ok a => Ok (c, map (fun x => ppf c (Phi x)) a)
-               | Err e => Err e end = Ok (c, x)).
-  { destruct conds as [|c1 r1]; [exact Hc|]. now rewrite Hl in Hc. }
-  destruct (Hs Hc') as (i & col & H1 & H2 & ->).
-  exists nc, i, col. auto.
+  unfold output_column, bind in Hc. rewrite Hl in Hc.
+  unfold frame_col in Hc. simpl in Hc.
+  destruct (index_of c (cols1_of nc)) as [i|] eqn:Ei; [|discriminate].
+  destruct (sequence _) as [col|] eqn:Es; [|discriminate].
+  inversion Hc; subst. exists nc, i, col. repeat split; auto.
+  - now apply index_of_nth.
+  - now apply sequence_Forall2 in Es.
 Qed.
 
-(* ---------------- how the scores are computed and labelled ------------ *)
-
-Definition keys (conds : list (label * V)) : list label := map fst conds.
-
-(* the columns that are conditioned on, in TRAINING order *)
-Definition conditioned_in_training_order (conds : list (label * V)) : list label :=
-  filter (fun c => mem c (keys conds)) columns.
-
-Lemma transform_U_gen conds cs :
-  flat_map (fun c => match lookup c conds with Some v => [score c v] | None => [] end) cs
-  = flat_map (fun c => match lookup c conds with Some v => [score c v] | None => [] end)
-             (filter (fun c => mem c (keys conds)) cs).
+(* the free columns of the draw are exactly the training columns without a condition *)
+Theorem cond_free_columns kind n conds out :
+  smp kind n (Some conds) = Ok out ->
+  exists nc, ncond conds = Ok nc /\
+    forall c, In c (cols1_of nc) <-> In c columns /\ lookup c conds = None.
 Proof.
-  induction cs as [|c cs IH]; simpl; auto.
-  destruct (mem c (keys conds)) eqn:E; simpl.
-  - now rewrite IH.
-  - apply mem_false in E. apply lookup_None in E. rewrite E. simpl. apply IH.
+  intros H. destruct (sample_inv _ _ _ _ H) as (nc & Hnc & Hk & _ & _).
+  exists nc. split; auto. now apply cols1_known.
 Qed.
 
-Lemma transform_U conds :
-  flat_map (fun c => match lookup c conds with Some v => [score c v] | None => [] end) columns
-  = flat_map (fun c => match lookup c conds with Some v => [score c v] | None => [] end)
-             (conditioned_in_training_order conds).
-Proof. apply transform_U_gen. Qed.
-
-Lemma transform_U_length conds :
-  length (flat_map (fun c => match lookup c conds with Some v => [score c v] | None => [] end)
-                   columns)
-  = length (conditioned_in_training_order conds).
+(* KeyError is unreachable: the labels handed to .loc are training columns *)
+Theorem cond_no_key_error kind n conds l : smp kind n (Some conds) <> Err (KeyError l).
 Proof.
-  rewrite transform_U.
-  assert (H : forall c, In c (conditioned_in_training_order conds) -> In c (keys conds)).
-  { intros c Hc. apply filter_In in Hc. now apply mem_In. }
-  induction (conditioned_in_training_order conds) as [|c cs IH]; simpl; auto.
-  destruct (lookup_Some_key c conds (H c (or_introl eq_refl))) as [v ->].
-  simpl. f_equal. apply IH. intros; apply H; now right.
+  unfold sample, normal_samples. unfold bind at 1 2.
+  destruct (ncond conds) as [nc|] eqn:Enc.
+  - rewrite (normal_conditions_keys _ _ Enc), first_unknown_known.
+    destruct (cond_params _ _) as [mu Sg].
+    assert (Hfr : forall fr c e, frame_col V fr c = Err e ->
+              In c (header V fr) -> Forall (fun r => length r = length (header V fr)) (rows V fr) -> False).
+    { intros fr c e Hc Hin Hr. unfold frame_col in Hc.
+      destruct (index_of_In _ _ Hin) as [i Hi]. rewrite Hi in Hc.
+      pose proof (index_of_nth _ _ _ Hi) as Hn.
+      assert (Hilt : (i < length (header V fr))%nat) by (apply nth_error_Some; congruence).
+      destruct (sequence _) eqn:Es; [discriminate|].
+      clear - Hr Hilt Es. induction (rows V fr) as [|row rs IHr]; [discriminate|].
+      inversion Hr; subst. simpl in Es. destruct (nth_error row i) eqn:En.
+      - destruct (sequence (map (fun r => nth_error r i) rs)); [discriminate|]. auto.
+      - apply nth_error_None in En. lia. }
+    destruct (cols1_of nc) as [|c0 r0] eqn:Ec; [discriminate|]. rewrite <- Ec.
+    unfold mk_frame. destruct (forallb _ _) eqn:Efb; [|discriminate].
+    unfold bind. intros Hm.
+    assert (Hrows : Forall (fun r => length r = length (cols1_of nc)) (mvn mu Sg n)).
+    { apply Forall_forall. intros r Hr. rewrite forallb_forall in Efb. now apply Nat.eqb_eq, Efb. }
+    clear Efb. apply mapM_err_inv in Hm. destruct Hm as (c & Hc & Eo).
+    unfold output_column, bind in Eo.
+    destruct (lookup c conds) eqn:El; [discriminate|].
+    destruct (frame_col _ _ _) eqn:Ef; [discriminate|]. inversion Eo; subst.
+    eapply Hfr; [exact Ef| |exact Hrows]. simpl.
+    apply (cols1_known conds nc (normal_conditions_keys _ _ Enc)). split; auto.
+  - unfold normal_conditions, bind, transform_conditions in Enc.
+    destruct (transform_known_gen conds columns) as [_ H2].
+    destruct (flat_map _ columns) eqn:E; [inversion Enc; discriminate|].
+    unfold relabel, known in Enc. rewrite H2, Nat.eqb_refl in Enc. discriminate.
 Qed.
 
-Lemma conditioned_nodup conds : NoDup (conditioned_in_training_order conds).
-Proof. apply NoDup_filter, columns_nodup. Qed.
-
-(* What the code really computes: the i-th label of the dict gets the score of the i-th
-   conditioned column in TRAINING order. *)
-Theorem normal_conditions_spec conds nc :
-  ncond conds = Ok nc ->
-  nc = combine (keys conds)
-         (flat_map (fun c => match lookup c conds with Some v => [score c v] | None => [] end)
-                   (conditioned_in_training_order conds)).
-Proof.
-  unfold normal_conditions, bind, transform_conditions. rewrite transform_U.
-  destruct (flat_map _ _) eqn:E; [discriminate|].
-  unfold relabel. destruct (Nat.eqb _ _); [|discriminate]. now intros [= <-].
-Qed.
-
-Lemma flat_map_items conds (l : list (label * V)) :
-  NoDup (keys conds) -> incl l conds ->
-  flat_map (fun c => match lookup c conds with Some v => [score c v] | None => [] end)
-           (map fst l)
-  = map (fun p => score (fst p) (snd p)) l.
-Proof.
-  intros ND. induction l as [|[c v] l IH]; simpl; intros Hi; auto.
-  rewrite (lookup_NoDup c conds v ND) by (apply Hi; now left).
-  simpl. f_equal. apply IH. intros x Hx. apply Hi. now right.
-Qed.
-
-Lemma combine_items (l : list (label * V)) :
-  combine (map fst l) (map (fun p => score (fst p) (snd p)) l)
-  = map (fun p => (fst p, score (fst p) (snd p))) l.
-Proof. induction l as [|[c v] l IH]; simpl; auto. now rewrite IH. Qed.
-
-(* PARTIAL: when the dict lists its keys in training order, every score is attached to
-   its own label. *)
-Theorem cond_scores_by_label_partial conds :
-  conds <> [] -> NoDup (keys conds) ->
-  keys conds = conditioned_in_training_order conds ->
-  ncond conds = Ok (map (fun p => (fst p, score (fst p) (snd p))) conds).
-Proof.
-  intros Hne ND Hord.
-  unfold normal_conditions, bind, transform_conditions. rewrite transform_U, <- Hord.
-  unfold keys. rewrite (flat_map_items conds conds ND (incl_refl _)).
-  destruct conds as [|p r]; [contradiction|]. simpl map at 1.
-  cbv iota. unfold relabel. rewrite map_length, Nat.eqb_refl.
-  now rewrite <- combine_items.
-Qed.
-
-(* ---------------- a condition label that is not a training column ----- *)
-
-Theorem cond_unknown_label_raises kind n conds l :
-  NoDup (keys conds) -> In l (keys conds) -> ~ In l columns ->
-  smp kind n (Some conds) = Err ValueError_no_arrays \/
-  exists k, (k < length conds)%nat /\
-            smp kind n (Some conds) = Err (ValueError_length_mismatch k (length conds)).
-Proof.
-  intros ND Hl Hnl.
-  assert (Hlt : (length (conditioned_in_training_order conds) < length conds)%nat).
-  { assert (Hnd : NoDup (l :: conditioned_in_training_order conds)).
-    { constructor; [|apply conditioned_nodup].
-      intros H. apply filter_In in H. tauto. }
-    assert (Hincl : incl (l :: conditioned_in_training_order conds) (keys conds)).
-    { intros x [<-|Hx]; auto. apply filter_In in Hx. now apply mem_In. }
-    pose proof (NoDup_incl_length Hnd Hincl) as H. unfold keys in H. rewrite map_length in H.
-    simpl in H. lia. }
-  rewrite <- transform_U_length in Hlt.
-  unfold sample, normal_samples, normal_conditions, transform_conditions.
-  destruct (flat_map _ columns) as [|u U] eqn:E.
-  - left. reflexivity.
-  - right. exists (length (u :: U)). split; auto.
-    unfold bind at 3. unfold relabel.
-    destruct (Nat.eqb (length (u :: U)) (length conds)) eqn:E2.
-    + apply Nat.eqb_eq in E2. lia.
-    + reflexivity.
-Qed.
-
-(* conditioning on every training column also raises (numpy cannot draw a 0-dimensional
+(* conditioning on every training column raises (numpy cannot draw a 0-dimensional
    normal): the draw needs at least one free column *)
 Theorem cond_all_columns_conditioned_raises kind n conds :
   (forall c, In c columns -> In c (keys conds)) ->
   forall out, smp kind n (Some conds) <> Ok out.
 Proof.
   intros Hall out H.
-  unfold sample, normal_samples in H. unfold bind at 1 2 in H.
-  destruct (ncond conds) as [nc|] eqn:Enc; [|discriminate].
-  pose proof (normal_conditions_keys _ _ Enc) as Hk.
-  destruct (first_unknown columns (map fst nc)); [discriminate|].
-  destruct (cond_params _ _) as [mu Sg].
-  destruct (cols1_of nc) as [|c0 r0] eqn:E; [discriminate|].
+  destruct (sample_inv _ _ _ _ H) as (nc & Hnc & Hk & Hne & _).
+  destruct (cols1_of nc) as [|c0 r0] eqn:E; [congruence|].
   assert (Hin : In c0 (cols1_of nc)) by (rewrite E; now left).
-  apply columns1_spec in Hin. destruct Hin as [H1 H2]. rewrite Hk in H2. apply H2, Hall, H1.
+  apply (cols1_known conds nc Hk) in Hin. destruct Hin as [H1 H2].
+  apply lookup_None in H2. apply H2, Hall, H1.
 Qed.
 
-(* a Series as [conditions] always raises (for a fitted model, i.e. >= 1 column),
-   although the docstring allows it *)
-Theorem cond_series_raises n conds :
-  columns <> [] -> forall out, smp Series n (Some conds) <> Ok out.
-Proof using.
-  intros Hne out H. unfold sample, bind in H.
-  destruct (normal_samples _ _ _ _ _ _ _ _ _) as [fr|]; [|discriminate].
-  apply mapM_Forall2 in H. inversion H as [Hnil|c p cs ps Hc HF Hcs].
-  - now apply Hne.
-  - unfold output_column in Hc. discriminate.
-Qed.
+(* ---------------- success on the property's quantifier (and beyond) ---------- *)
 
-(* ---------------- success under the documented preconditions ---------- *)
-
-Theorem cond_sample_ok n conds :
-  conds <> [] -> NoDup (keys conds) -> incl (keys conds) columns ->
-  (exists c, In c columns /\ ~ In c (keys conds)) ->
-  exists out, smp Dict n (Some conds) = Ok out.
+Theorem cond_sample_ok kind n conds :
+  (exists c v, In c columns /\ lookup c conds = Some v) ->
+  (exists c, In c columns /\ lookup c conds = None) ->
+  exists out, smp kind n (Some conds) = Ok out.
 Proof.
-  intros Hne ND Hincl (cfree & Hf1 & Hf2).
-  (* scores *)
-  assert (Hlen : length (conditioned_in_training_order conds) = length conds).
-  { apply Nat.le_antisymm.
-    - replace (length conds) with (length (keys conds)) by apply map_length.
-      apply NoDup_incl_length; [apply conditioned_nodup|].
-      intros x Hx. apply filter_In in Hx. now apply mem_In.
-    - replace (length conds) with (length (keys conds)) by apply map_length.
-      apply NoDup_incl_length; auto.
-      intros x Hx. apply filter_In. split; [now apply Hincl | now apply mem_In]. }
-  rewrite <- transform_U_length in Hlen.
+  intros (ck & vk & Hk1 & Hk2) (cfree & Hf1 & Hf2).
+  destruct (transform_known_gen conds columns) as [H1 H2].
   unfold sample, normal_samples, normal_conditions, transform_conditions.
-  destruct (flat_map _ columns) as [|u U] eqn:EU.
-  { destruct conds; [contradiction|discriminate]. }
-  unfold bind at 3. unfold relabel. rewrite Hlen, Nat.eqb_refl. unfold bind at 2.
-  set (nc := combine (map fst conds) (u :: U)).
-  assert (Hk : map fst nc = map fst conds).
-  { apply combine_fst. now rewrite map_length. }
-  assert (Hfu : first_unknown columns (map fst nc) = None).
-  { rewrite Hk. unfold first_unknown. apply find_none_conv. intros x Hx.
-    apply negb_false_iff, mem_In, Hincl, Hx. }
-  rewrite Hfu.
-  assert (Hc : cols1_of nc = cols1_of conds) by (unfold columns1; now rewrite Hk).
+  destruct (flat_map (fun c => match lookup c conds with Some v => [score c v] | None => [] end) columns)
+    as [|u U] eqn:EU.
+  { exfalso. clear - EU Hk1 Hk2. induction columns as [|c cs IH]; [destruct Hk1|].
+    simpl in EU. destruct Hk1 as [->|Hin].
+    - rewrite Hk2 in EU. discriminate.
+    - destruct (lookup c conds); [discriminate|]. auto. }
+  unfold bind at 3. unfold relabel. unfold known at 1. rewrite H2, Nat.eqb_refl. unfold bind at 2.
+  set (nc := combine (knownc conds) (u :: U)).
+  assert (Hk : map fst nc = knownc conds).
+  { apply combine_fst. unfold known. now rewrite H2. }
+  rewrite Hk, first_unknown_known.
   pose proof (draw_of_shape n nc) as [Hd1 Hd2]. unfold draw_of in Hd1, Hd2.
-  rewrite Hc in *.
-  destruct (cond_params (cols1_of conds) nc) as [mu Sg].
-  assert (Hfree : In cfree (cols1_of conds)) by (apply columns1_spec; auto).
-  destruct (cols1_of conds) as [|c0 r0] eqn:Ecols; [destruct Hfree|].
+  destruct (cond_params (cols1_of nc) nc) as [mu Sg].
+  assert (Hfree : In cfree (cols1_of nc)) by (apply (cols1_known conds nc Hk); auto).
+  destruct (cols1_of nc) as [|c0 r0] eqn:Ecols; [destruct Hfree|].
   rewrite <- Ecols in *.
   unfold mk_frame.
-  assert (Hfb : forallb (fun r => Nat.eqb (length r) (length (cols1_of conds))) (mvn mu Sg n) = true).
+  assert (Hfb : forallb (fun r => Nat.eqb (length r) (length (cols1_of nc))) (mvn mu Sg n) = true).
   { apply forallb_forall. intros r Hr. rewrite Forall_forall in Hd2.
     apply Nat.eqb_eq. auto. }
   rewrite Hfb. unfold bind.
-  (* every training column produces a value *)
   assert (Hall : forall cs, incl cs columns ->
-            exists out, mapM (outcol Dict n (Some conds)
-                               (mkFrame V (cols1_of conds) (mvn mu Sg n))) cs = Ok out).
+            exists out, mapM (outcol kind n (Some conds)
+                               (mkFrame V (cols1_of nc) (mvn mu Sg n))) cs = Ok out).
   { induction cs as [|c cs IH]; intros Hi; [exists []; reflexivity|].
     destruct IH as [out' Ho]; [intros x Hx; apply Hi; now right|].
-    assert (Hcc : exists p, outcol Dict n (Some conds)
-                     (mkFrame V (cols1_of conds) (mvn mu Sg n)) c = Ok p).
-    { unfold output_column. destruct conds as [|p0 r]; [contradiction|].
-      destruct (lookup c (p0 :: r)) eqn:El; [eauto|].
-      apply lookup_None in El.
-      assert (Hin : In c (cols1_of (p0 :: r))).
-      { apply columns1_spec. split; auto. apply Hi. now left. }
+    assert (Hcc : exists p, outcol kind n (Some conds)
+                     (mkFrame V (cols1_of nc) (mvn mu Sg n)) c = Ok p).
+    { unfold output_column.
+      destruct (lookup c conds) eqn:El; [eauto|].
+      assert (Hin : In c (cols1_of nc)).
+      { apply (cols1_known conds nc Hk). split; auto. apply Hi. now left. }
       unfold frame_col. simpl header. simpl rows.
       destruct (index_of_In _ _ Hin) as [i Hi']. rewrite Hi'.
       pose proof (index_of_nth _ _ _ Hi') as Hn.
-      assert (Hilt : (i < length (cols1_of (p0 :: r)))%nat) by (apply nth_error_Some; congruence).
+      assert (Hilt : (i < length (cols1_of nc))%nat) by (apply nth_error_Some; congruence).
       assert (Hseq : exists col, sequence (map (fun r1 => nth_error r1 i) (mvn mu Sg n)) = Some col).
       { clear - Hd2 Hilt. induction (mvn mu Sg n) as [|row rs IHr]; [exists []; reflexivity|].
         inversion Hd2; subst. destruct (IHr H2) as [col Hcol].
@@ -574,7 +681,7 @@ End Proofs.
    theorem above mentions the same [conds] before and after the call. *)
 
 (* ------------------------------------------------------------------ *)
-(* Instantiation with the concrete sort, non-vacuity, refutations       *)
+(* Instantiation with the concrete sort, non-vacuity                    *)
 
 Lemma demo_mvn_shape mu Sg n :
   length (Demo.mvn mu Sg n) = n /\ Forall (fun r => length r = length mu) (Demo.mvn mu Sg n).
@@ -599,15 +706,13 @@ Example cond_sample_ok_nonvacuous :
 Proof.
   apply (cond_sample_ok nat isort Demo.score Demo.ppf Demo.Phi Demo.cond_params
            (Demo.uncond [2;0;1]) Demo.mvn [2;0;1]
-           isort_perm demo_mvn_shape demo_cond_params_shape demo_columns_nodup).
-  - discriminate.
-  - repeat constructor; simpl; intuition.
-  - intros x [<-|[]]. simpl; auto.
-  - exists 2. simpl. intuition discriminate.
+           isort_perm demo_mvn_shape demo_cond_params_shape).
+  - exists 0, 7. simpl; auto.
+  - exists 2. simpl. auto.
 Qed.
 
 Example cond_fixed_columns_nonvacuous out :
-  Demo.run Dict [2; 0; 1] 2 (Some [(0, 7)]) = Ok out -> lookup 0 out = Some [7; 7].
+  Demo.run Series [2; 0; 1] 2 (Some [(0, 7)]) = Ok out -> lookup 0 out = Some [7; 7].
 Proof.
   intros H. unfold Demo.run in H. change [7; 7] with (repeat 7 2).
   eapply cond_fixed_columns; [exact H| |].
@@ -615,44 +720,30 @@ Proof.
   - reflexivity.
 Qed.
 
-(* REFUTED: "the score attached to label c is score_c(value_c)".
-   Training order [2;0;1], conditions {0: 7, 2: 5}: the scores are computed in training
-   order (column 2 first) but labelled in dict order (label 0 first), so label 0 gets the
-   score of column 2.  Python counterpart: columns ['b','c','a'], conditions
-   {'a': 2.0, 'b': 10.0} gives normal_conditions a=0.0737 (b's score), b=1.9997 (a's). *)
-Theorem cond_scores_by_label_refuted :
-  exists (columns : list label) (conds : list (label * nat)) c v,
-    NoDup columns /\ NoDup (map fst conds) /\ incl (map fst conds) columns /\
-    In (c, v) conds /\
-    exists nc, normal_conditions nat Demo.score columns conds = Ok nc /\
-               lookup c nc <> Some (Demo.score c v).
-Proof.
-  exists [2; 0; 1], [(0, 7); (2, 5)], 0, 7.
-  split; [apply demo_columns_nodup|].
-  split; [repeat constructor; simpl; intuition discriminate|].
-  split; [intros x [<-|[<-|[]]]; simpl; auto|].
-  split; [simpl; auto|].
-  eexists. split; [vm_compute; reflexivity|]. vm_compute. discriminate.
-Qed.
+(* the former F19 witness: training order [2;0;1], conditions {0: 7, 2: 5} in either order give every
+   label its own score *)
+Example cond_scores_by_label_witness :
+  normal_conditions nat Demo.score [2; 0; 1] [(0, 7); (2, 5)] = Ok [(2, Demo.score 2 5); (0, Demo.score 0 7)] /\
+  normal_conditions nat Demo.score [2; 0; 1] [(2, 5); (0, 7)] = Ok [(2, Demo.score 2 5); (0, Demo.score 0 7)].
+Proof. split; reflexivity. Qed.
 
-(* consequence: the ORDER of the dict changes the conditional distribution.  With a
-   cond_params oracle that reads the labelled scores, the same conditions listed in two
-   orders give different samples. *)
+(* with a cond_params oracle that reads the labelled scores, the two orders give the same sample
+   (they differed before fa9ce3f) *)
 Definition cp_reads_scores (cols1 : list label) (nc : list (label * nat)) :=
   (map (fun c => fold_right (fun kv acc => (S (fst kv)) * snd kv + acc) 0 nc) cols1,
    @nil (list nat)).
 
-Theorem cond_dict_order_matters :
+Example cond_dict_order_irrelevant_witness :
   sample nat isort Demo.score Demo.ppf Demo.Phi cp_reads_scores (Demo.uncond [2;0;1])
          Demo.mvn [2;0;1] Dict 1 (Some [(2, 5); (0, 7)])
-  <>
+  =
   sample nat isort Demo.score Demo.ppf Demo.Phi cp_reads_scores (Demo.uncond [2;0;1])
          Demo.mvn [2;0;1] Dict 1 (Some [(0, 7); (2, 5)]).
-Proof. vm_compute. discriminate. Qed.
+Proof. reflexivity. Qed.
 
-(* a label that is not a training column: ValueError (never KeyError, never ignored) *)
+(* a label that is not a training column is ignored; alone it leaves nothing to condition on *)
 Example cond_unknown_label_example :
-  Demo.run Dict [2; 0; 1] 2 (Some [(9, 7); (0, 1)]) = Err (ValueError_length_mismatch 1 2) /\
+  Demo.run Dict [2; 0; 1] 2 (Some [(9, 7); (0, 1)]) = Demo.run Dict [2; 0; 1] 2 (Some [(0, 1)]) /\
   Demo.run Dict [2; 0; 1] 2 (Some [(9, 7)]) = Err ValueError_no_arrays.
 Proof. split; reflexivity. Qed.
 
@@ -666,9 +757,10 @@ Print Assumptions cond_all_columns_in_order.
 Print Assumptions cond_sampled_by_label.
 Print Assumptions columns1_spec.
 Print Assumptions cond_sample_ok.
-Print Assumptions cond_unknown_label_raises.
-Print Assumptions cond_scores_by_label_partial.
-Print Assumptions cond_scores_by_label_refuted.
-Print Assumptions cond_dict_order_matters.
-Print Assumptions cond_series_raises.
+Print Assumptions cond_scores_by_label.
+Print Assumptions cond_dict_order_irrelevant.
+Print Assumptions cond_series_equivalent.
+Print Assumptions cond_unknown_label_ignored.
+Print Assumptions cond_no_known_label_raises.
+Print Assumptions cond_no_key_error.
 Print Assumptions cond_all_columns_conditioned_raises.
